@@ -145,7 +145,7 @@ fn pair_driver(_ctx: &RunCtx, stats: &mut Stats, rep: &mut Reporter) {
 }
 
 fn slider_driver(ctx: &RunCtx, stats: &mut Stats, rep: &mut Reporter) {
-    let k = if ctx.tier == Tier::Quick { 6 } else { 96 };
+    let k = if ctx.tier == Tier::Quick { 16 } else { 128 };
     let seed = ctx.seed;
     // work items: (piece, square)
     par_chunks(128, stats, rep, |range, st, fails| {
@@ -212,7 +212,7 @@ pub fn property() -> Property {
         rule: "Exhaustive through the read-only hooks: king/knight/pawn tables for all 64 squares (x2 colours) against offset geometry; \
                alignment predicates for all 4,096 ordered pairs and between sets for all aligned pairs and a == b; sliders: for every \
                square every subset of the relevant blocker squares (107,648 subsets in total), each with (a) no other bit, (b) all \
-               irrelevant bits set, (c) own square set, (d) k random irrelevant patterns (k = 6 quick, 96 thorough), against ray walking; \
+               irrelevant bits set, (c) own square set, (d) k random irrelevant patterns (k = 16 quick, 128 thorough), against ray walking; \
                plus generated random 64-bit occupancies. Non-trivial = slider case with >= 1 blocker / aligned pair / square; distinct by \
                (piece, square, occupancy).",
         assumptions: &[
@@ -225,7 +225,7 @@ pub fn property() -> Property {
             SubCheck { name: "slider_subsets", driver: Driver::Custom { run: slider_driver }, check: slider_check, configs: Configs::Both, required: &[], regressions: &[], exhaustive: true },
             SubCheck {
                 name: "slider_random_occupancies",
-                driver: Driver::Generated { gen: gen_slider_case, genome_len: 48, quick: 2_000_000, thorough: 100_000_000 },
+                driver: Driver::Generated { gen: gen_slider_case, genome_len: 48, quick: 10_000_000, thorough: 300_000_000 },
                 check: slider_check,
                 configs: Configs::ReleaseOnly,
                 required: &[],
